@@ -138,7 +138,7 @@ pub fn generate(tier: &str, rng: &mut Rng) -> Vec<String> {
     // ---- unit: exhaustive small scope ----
     // every env over {o,e,p} up to a bound × the disciplined op pattern (poll until not pending,
     // call after each Ready) is covered by `sess`; here ops are arbitrary.
-    let (env_max, ops_max) = if thorough { (7, 6) } else { (5, 5) };
+    let (env_max, ops_max) = if thorough { (6, 6) } else { (5, 5) };
     let envs = all_strings_upto(&['o', 'e', 'p'], env_max);
     let opss = all_strings_upto(&['r', 'c'], ops_max);
     for m in modes {
@@ -156,7 +156,7 @@ pub fn generate(tier: &str, rng: &mut Rng) -> Vec<String> {
         }
     }
     // ---- unit: random long scripts (biased to `o`, with bursts of errors) ----
-    let n = if thorough { 60000 } else { 4000 };
+    let n = if thorough { 30000 } else { 4000 };
     for _ in 0..n {
         let m = *rng.pick(&modes);
         let len = rng.range(0, 24) as usize;
@@ -185,7 +185,7 @@ pub fn generate(tier: &str, rng: &mut Rng) -> Vec<String> {
     }
 
     // ---- sess: exhaustive small scope + random ----
-    let env_max = if thorough { 10 } else { 7 };
+    let env_max = if thorough { 9 } else { 7 };
     for m in modes {
         for env in all_strings_upto(&['o', 'e', 'p'], env_max) {
             // enough calls to consume the whole script
@@ -208,7 +208,7 @@ pub fn generate(tier: &str, rng: &mut Rng) -> Vec<String> {
     // ---- e2e: every fault script up to the bound ----
     // ops over {c,d} up to length n; connector outcomes over {F,S}, one per possible attempt
     // (at most #calls + 1 attempts can happen), so no script ever runs past its outcome list.
-    let ops_max = if thorough { 10 } else { 7 };
+    let ops_max = if thorough { 9 } else { 7 };
     for m in modes {
         for ops in all_strings_upto(&['c', 'd'], ops_max) {
             let calls = ops.matches('c').count();
